@@ -105,6 +105,24 @@ def run (ctx):
     else:
       ctx.ob('R-DOM', gi, "a deleted port is not found by %s" % kd, kinds == {'raise_stmt'}, "lookup of masked port 2 by %s raises" % kd if kinds == {'raise_stmt'} else
              "port 2 ('eth1') of the original set was deleted, yet looking it up by %s (%r) can end in a return: the mask is compared with the key instead of the found port's number, so a deleted port stays reachable under its %s" % (kd, key, kd), gi, 'D1')
+  # by evaluation: the original set knows port 1 as 'eth1'; a port-status MODIFY (or DELETE + ADD) stored port 1 locally as 'eth9',
+  # nothing is masked.  The old name must no longer resolve (membership of the view = the notified ports), the new one must
+  is_chain_get = lambda e: isinstance(e, ast.Subscript) and norm(e.value) == 'self._chain' and isinstance(e.ctx, ast.Load)
+  is_chain_call = lambda e: isinstance(e, ast.Call) and isinstance(e.func, ast.Attribute) and norm(e.func.value) == 'self._chain'
+  def lookup (key):
+    env = q.Env({gi.params[1]: key, 'self._ports': [q.Rec(port_no=1, name='eth9', hw_addr='<mac9>')], 'self._masks': set(), 'self._chain': '<original>'},
+                [(is_chain_get, q.Rec(port_no=1, name='eth1', hw_addr='<mac1>')), (is_chain_call, q.Rec(port_no=1, name='eth1', hw_addr='<mac1>'))])
+    kinds = set()
+    for p_, e_ in q.paths_under(repo, mod, g, env, g.entry, [n for n in g.nodes if n.kind in ('return', 'raise_stmt')], pc, limit=60): kinds.add(p_[-1].kind)
+    return kinds
+  old_, new_ = lookup('eth1'), lookup('eth9')
+  if not old_ or not new_:
+    ctx.undecided('R-DOM', gi, "the former name of a modified port is not found", "lookup not evaluable on the sample view", gi, 'D1')
+  else:
+    good = old_ == {'raise_stmt'} and 'return' in new_  # (the key's being an EthAddr is left open: that branch finds nothing)
+    ctx.ob('R-DOM', gi, "the former name of a modified port is not found", good, "'eth1' raises, 'eth9' is found" if good else
+           "port 1 was reported as 'eth1' and later modified (or deleted and re-added) as 'eth9': looking up 'eth1' ends in %s and 'eth9' in %s - the outdated original is still a member of the view under its old name"
+           % (sorted(old_), sorted(new_)), gi, 'D1')
   ends = [n for n in g.nodes if n.kind == 'raise_stmt']
   falls = g.exit in g.reachable(g.entry, avoid=[n for n in g.nodes if n.kind in ('return', 'raise_stmt')], exc=False)
   ctx.ob('R-EFFECT', gi, "a missing key raises instead of yielding None", bool(ends) and not falls, "falls through to raise IndexError" if not falls else "lookup can fall off the end and return None: membership tests succeed for absent ports", gi, 'D1')
